@@ -266,6 +266,12 @@ func run(c *Case, cfg Config, stats *Stats) (*World, *Divergence, Outcome) {
 				if st.Res.Ref || r.mayRefuse {
 					stats.Refused++
 					stats.RefusedOps[st.Op.K]++
+					if lf := os.Getenv("VERIF_REFUSELOG"); lf != "" { // analysis aid: the reasons of accepted refusals
+						if f, e := os.OpenFile(fmt.Sprintf("%s.%d", lf, os.Getpid()), os.O_CREATE|os.O_APPEND|os.O_WRONLY, 0644); e == nil {
+							fmt.Fprintf(f, "REFUSED\t%s\t%s\t%v\n", w.Cfg.D.Name, c.PathString(), r.err)
+							f.Close()
+						}
+					}
 					return w, nil, Refused
 				}
 				stats.Diverged++
